@@ -32,11 +32,11 @@ RULE = ("states = canonical product (reference model, all live implementation ob
         "histories of DERIVE/WRITE/READ transitions up to the stated depth, deduplicated by hashing; every transition is replayed on fresh "
         "real objects; non-trivial states = states with at least one pending (unmaterialised) selection")
 ASSUMPTIONS = ["reference model: reads are no-ops, selections are snapshots, a[...] / a[()] are aliases (list-of-rows model)",
-               "canonical form drops only the memo `_size` (a cache of sum(lengths); lengths never change and every state observation reads .size)",
+               "canonical form covers every instance attribute, the size memo and attributes unknown to the explorer included",
                "known finding 'lazy-view-write-through' is classified by an explicit buffer-sharing model; only deviations equal to that model are attributed to it"]
 REQUIRED_FEATURES = ["pending_selection", "write_after_read", "alias_derivation",
                      "three_variables", "selection_of_selection", "write_through_alias", "write_through_read_result", "write_to_callers_buffer"]
-BOUNDS = {"quick": "2 base arrays, 3 variables, every history of depth <= 4 over 9 selectors x 6 writes x 26 reads (all variables / sources), "
+BOUNDS = {"quick": "2 base arrays, 3 variables, every history of depth <= 4 over 9 selectors x 6 writes x 27 reads (all variables / sources), "
                    "plus depth 5 for histories on the first base whose first two steps are derivations; steps V (write through the array a read returned, 7 kinds) and, on a base built over a caller's strided buffer, X (the caller overwrites it); invariant: numpy print / error configuration unchanged after every step",
           "thorough": "3 base arrays, depth <= 5 complete, depth 6 after two derivations"}
 
@@ -56,7 +56,7 @@ WRITES = ["row0", "col0", "fill", "cell", "rows1", "from"]
 READS = {"meta": False, "repr": True, "tolist": True, "ravel": True, "x[0]": True, "x[1:]": False, "x[:,::-1]": False,
          "x[0,0]": True, "x+1": True, "sum-1": True, "sum0": True, "concat": True, "x[...]": True, "x+y": True,
          "x[:,::2]": False, "x[mask]": True, "rslice": True, "col_counts": False, "x*fcol": True, "argmax": True, "x[ri,ci]": True, "colvals": False,
-         "sort": True, "unique": True, "cumsum": True, "nonzero": True}
+         "sort": True, "unique": True, "cumsum": True, "nonzero": True, "mean-1": True}
 # writes THROUGH the ndarray a read returned (r = x[0]; r[...] = -4).  Whether such a result is a view or a copy is the library's
 # choice, so these steps have no model; they are judged by the read-commutation oracle alone and not expanded further.
 VIA = ["x[0]", "x[-1]", "x[-1,0:2]", "x[0,::2]", "ravel", "x[:,0]", "sum-1"]
@@ -317,7 +317,7 @@ def do_via(x, v):
 
 def do_read(x, r, y=None):
     if r == "meta":
-        return (len(x), np.asarray(x.lengths), str(x.dtype), x.shape[0])
+        return (len(x), np.asarray(x.lengths), str(x.dtype), x.shape[0], int(x.size))
     if r == "repr":
         return (repr(x), str(x))[0][:0]
     if r == "tolist":
@@ -356,6 +356,9 @@ def do_read(x, r, y=None):
         return x.col_counts()
     if r == "colvals":
         return x.get_column_values(0)
+    if r == "mean-1":
+        with np.errstate(all="ignore"):
+            return x.mean(axis=-1)
     if r == "sort":
         return x.sort(axis=-1)
     if r == "unique":
@@ -446,7 +449,7 @@ def state_key(objs, snap):
             share = tuple((bool(np.shares_memory(d, np.asarray(_buf(objs[y])))), getattr(objs[y], "_shape", None) is sh, objs[y] is o)
                           for y in live if y != x)
             parts.append((x, canon_shape(sh), _arr(d), d.strides, bool(getattr(o, "is_contigous", True)), bool(getattr(o, "_safe_mode", True)), share,
-                          extra_attrs(o, RAGGED_KNOWN)))
+                          extra_attrs(o, RAGGED_KNOWN), getattr(o, "_size", None)))
         except Exception:  # noqa: BLE001  refactored / unexpected hidden state: coarser exploration, same verdicts
             parts.append(("fallback", x, tuple(objs[y] is o for y in live)))
     return hash((tuple(parts), repr(snap.v), tuple(id(snap.v[x]) == id(snap.v[y]) for x in live for y in live)))
